@@ -129,8 +129,13 @@ def cmd_run(ids, props):
                 t0 = time.time()
                 rc, out = sh([os.path.join(ROOT, 'check'), p, '--tier', 'quick'], cwd=ROOT,
                              env={'VERIF_REPO': d, 'VERIF_EVIDENCE_DIR': '/tmp/seed-evidence', 'VERIF_REPLAY_DIR': f'/tmp/seed-replay/{sid}'})
-                line = next((l for l in out.splitlines() if l.startswith(('VIOLATION', 'INCONCLUSIVE'))), '')
-                results[p] = {'rc': rc, 'line': line[:300], 's': round(time.time() - t0)}
+                lines = out.splitlines()
+                line = next((l for l in lines if l.startswith(('VIOLATION', 'INCONCLUSIVE'))), '') or \
+                    next((l for l in lines if l.startswith(('PROOF-LOST', 'BOUNDED-STANDIN'))), '')
+                results[p] = {'rc': rc, 'line': line[:300], 's': round(time.time() - t0),
+                              'no_input': any(l.startswith('VIOLATION') and l.rstrip().endswith('no-failing-input-found') for l in lines),
+                              'note': ('proof-lost' if any(l.startswith('PROOF-LOST') for l in lines) else
+                                       'bounded-standin' if any(l.startswith('BOUNDED-STANDIN') for l in lines) else '')}
                 print(sid, p, rc, line[:160], flush=True)
             meta['checks'] = results
             meta['checks_run_at'] = {'verif_head': sh(['git', '-C', ROOT, 'rev-parse', '--short', 'HEAD'])[1].strip(),
